@@ -233,6 +233,13 @@ def units():
                       "defines": ["-DUNIT_%s_RAW" % kind.upper(), "-DCH=%d" % ch, "-DBYTEW=%d" % bw], "cbmc_flags": ["--object-bits", "12"],
                       "timeout": 600, "kind": "enumerated(channels=%d, bytewidth=%d)" % (ch, bw),
                       "tier": "quick" if (ch, bw) in ((2, 2), (3, 3)) else "thorough"})
+    for nm in ("open_virtual", "open_fd"):
+        U.append({"name": "sndfile.sf_" + nm, "props": ["C14", "C16", "C09", "C19"], "harness": "sndfile_open.harness.c", "entry": "h_" + nm,
+                  "enforce": "sf_" + nm, "function": "sndfile.c:sf_" + nm,
+                  "replace": ["psf_allocate", "psf_init_files", "psf_set_file", "psf_is_pipe", "psf_ftell", "psf_open_file"],
+                  "cbmc_flags": ["--object-bits", "12"], "timeout": 600,
+                  "pre_gi_flags": ["--generate-function-body", "psf_copy_filename", "--generate-function-body-options", "nondet-return"],
+                  "trusted": ["psf_allocate / psf_init_files / psf_set_file contracts (file_io.c, common.c)", "E1 snprintf model", "E3 close model"]})
     callee = ["verif_log_printf", "psf_file_valid", "sf_version_string", "psf_get_format_simple", "psf_get_format_major",
               "psf_get_format_subtype", "psf_get_format_info", "psf_get_format_simple_count", "psf_get_format_major_count",
               "psf_get_format_subtype_count", "psf_calc_signal_max", "psf_calc_max_all_channels", "psf_get_signal_max",
